@@ -81,7 +81,8 @@ var c06FaultModes = []string{"write-fail", "write-fail", "ctx-cancel", "ctx-canc
 	"put:" + clockShelf, "put:" + payloadsShelf, "put:" + metadataShelf, "put:_" + c06NotTx + "_jobs", "put:_" + c06NotPay + "_jobs"}
 
 // kid-signed transactions relative to a DID document history (create / rotate / add key / remove key)
-var c06DIDTxModes = []string{"vouched", "unvouched", "unvouched", "removed-vouched", "removed-unvouched", "future-key-old-version", "latest-key-unvouched", "deactivated-version"}
+var c06DIDTxModes = []string{"vouched", "unvouched", "unvouched", "removed-vouched", "removed-unvouched", "future-key-old-version", "latest-key-unvouched", "deactivated-version",
+	"span-versions", "span-versions", "span-versions"}
 
 func c06GenOffer(t *rapid.T) c06Offer {
 	o := c06Offer{
@@ -995,6 +996,15 @@ func (f *c06Fix) runDIDTx(step int, o c06Offer) {
 			}
 		}
 	}
+	for n := uint32(0); n < 2 && o.V == "span-versions" && !d.deact && len(d.vers) < 2+int(o.Sel/29)%2; n++ {
+		// prevs spanning several versions need several versions: publish more (keys come and go between them)
+		oo := o
+		oo.K, oo.V = "did", []string{"rotate", "addkey", "rotate", "removekey"}[(o.Sel/3+n)%4]
+		f.runDID(step, oo)
+		if len(f.x.Violations()) > 0 {
+			return
+		}
+	}
 	pick := func(m map[string]*c06Key) (string, *c06Key, bool) {
 		if len(m) == 0 {
 			return "", nil, false
@@ -1018,6 +1028,12 @@ func (f *c06Fix) runDIDTx(step int, o c06Offer) {
 		if mode == "vouched" {
 			mode = "removed-vouched"
 		}
+	}
+	if mode == "span-versions" && len(d.vers) < 2 {
+		mode = "vouched" // (a deactivated document with one version only)
+	}
+	if mode == "span-versions" && o.Sel%2 == 0 && len(d.removed) > 0 {
+		kid, key, ok = pick(d.removed) // half of them with a key some version took away
 	}
 	if strings.HasPrefix(mode, "removed-") {
 		if kid, key, ok = pick(d.removed); !ok {
@@ -1044,6 +1060,10 @@ func (f *c06Fix) runDIDTx(step int, o c06Offer) {
 		if o.Sel%2 == 0 {
 			prevs = append(prevs, f.extras(d, o.Sel, np-1)...)
 		}
+	case "span-versions":
+		var shape string
+		prevs, shape = f.spanPrevs(d, kid, o, np)
+		mode = "span:" + shape
 	case "future-key-old-version":
 		// the key of the latest version, referenced to an older version that does not list it yet
 		for _, v := range d.vers {
@@ -1077,6 +1097,73 @@ func (f *c06Fix) runDIDTx(step int, o c06Offer) {
 	s.expect = f.validNow(b, o)
 	s.hostile = !f.res.resolvable(kid, b.prevs)
 	f.process(step, s)
+}
+
+// spanPrevs builds prevs that span SEVERAL versions of d's document: 2 or 3 of its source transactions in a generated order
+// (newest first, oldest first, mixed), interleaved with up to np-1 transactions that produced no version of it. shape names
+// what the generator's record says about kid as of these references: the status of the key in the newest referenced version
+// (listed | absent | deactivated), whether an older referenced version authorises it, and the order of the versions.
+func (f *c06Fix) spanPrevs(d *c06DIDState, kid string, o c06Offer, np int) (prevs []hash.SHA256Hash, shape string) {
+	nv := len(d.vers)
+	k := 2 + int(o.Sel/7)%2
+	if k > nv {
+		k = nv
+	}
+	idx := make([]int, nv)
+	for i := range idx {
+		idx[i] = i
+	}
+	r := uint64(o.Sel)*0x9E3779B97F4A7C15 + 0x7F4A7C15
+	next := func(n int) int {
+		r = r*6364136223846793005 + 1442695040888963407
+		return int((r >> 33) % uint64(n))
+	}
+	if nv > k && next(3) != 0 {
+		// mostly around the newest versions, where the latest keys came and went: the last k+1 versions
+		idx = idx[nv-k-1:]
+	}
+	for i := 0; i < k; i++ { // partial shuffle: a random subset in a random order
+		j := i + next(len(idx)-i)
+		idx[i], idx[j] = idx[j], idx[i]
+	}
+	chosen := idx[:k]
+	asc, desc, newest := true, true, chosen[0]
+	for i, v := range chosen {
+		if i > 0 && v > chosen[i-1] {
+			desc = false
+		}
+		if i > 0 && v < chosen[i-1] {
+			asc = false
+		}
+		if v > newest {
+			newest = v
+		}
+		prevs = append(prevs, d.vers[v].src)
+	}
+	for _, e := range f.extras(d, o.Sel, np-1) {
+		at := next(len(prevs) + 1)
+		prevs = append(prevs[:at], append([]hash.SHA256Hash{e}, prevs[at:]...)...)
+	}
+	status := "absent"
+	switch {
+	case d.vers[newest].deact:
+		status = "deactivated"
+	case d.vers[newest].kids[kid]:
+		status = "listed"
+	}
+	older := "older-none"
+	for _, v := range chosen {
+		if v != newest && d.vers[v].kids[kid] && !d.vers[v].deact {
+			older = "older-lists"
+		}
+	}
+	order := "mixed"
+	if desc {
+		order = "newest-first"
+	} else if asc {
+		order = "oldest-first"
+	}
+	return prevs, fmt.Sprintf("newest-%s:%s:%s", status, older, order)
 }
 
 // ---------------------------------------------------------------------------------------------------------------------
